@@ -91,6 +91,100 @@ def floatBitsOfNat (mbits bias : Nat) (n : Nat) : Nat :=
       -- q = 2^(mbits+1) after rounding up carries into the exponent field by itself
       (l + bias) * 2 ^ mbits + (q - 2 ^ mbits)
 
+
+/-! ### IEEE binary arithmetic on non-negative finite values (round to nearest, ties to even)
+
+The division, square-root and remainder routines estimate quotients with `f64` / `f32` arithmetic on values that
+are non-negative and finite by construction.  The operations below are exact definitions on `Nat` / `Int`
+(no floating point is used in the model): decode to `m · 2^e`, compute exactly (division and square root with a
+sticky bit), round once.  Anything outside the non-negative finite range (a sign bit, an infinity or NaN operand,
+an overflowing result, division by zero) is reported as an error instead of being modelled: the translated
+routines never produce it on the inputs the harness generates, and if they did the comparison with the compiled
+code would say so. -/
+
+/-- `(m, e)` with value `m · 2^e` for a non-negative finite pattern; `none` for sign / infinity / NaN -/
+def fpDecode (mbits ebits : Nat) (bits : Nat) : Option (Nat × Int) :=
+  let expF := bits / 2 ^ mbits % 2 ^ ebits
+  let man := bits % 2 ^ mbits
+  let bias : Int := 2 ^ (ebits - 1) - 1
+  if bits / 2 ^ (mbits + ebits) != 0 then none            -- sign bit (or junk above)
+  else if expF == 2 ^ ebits - 1 then none                 -- infinity / NaN
+  else if expF == 0 then some (man, 1 - bias - mbits)     -- zero / subnormal
+  else some (2 ^ mbits + man, (expF : Int) - bias - mbits)
+
+/-- round `m · 2^e` (+ something in (0, 2^e) when `sticky`) to the format; `none` on overflow -/
+def fpRound (mbits ebits : Nat) (m : Nat) (e : Int) (sticky : Bool) : Option Nat :=
+  if m == 0 then (if sticky then none else some 0) else
+  let bias : Int := 2 ^ (ebits - 1) - 1
+  let emin : Int := 1 - bias - mbits                      -- exponent of the last place of subnormals / smallest normals
+  let l := Nat.log2 m                                      -- 2^l ≤ m < 2^(l+1)
+  -- target exponent of the last kept place
+  let e0 : Int := max (e + (l : Int) - mbits) emin
+  let (q, r, half, st) : Nat × Nat × Nat × Bool :=
+    if e0 ≤ e then (m * 2 ^ (e - e0).toNat, 0, 1, sticky)
+    else
+      let sh := (e0 - e).toNat
+      (m / 2 ^ sh, m % 2 ^ sh, 2 ^ (sh - 1), sticky)
+  let up := if e0 ≤ e then false else (r > half || (r == half && (st || q % 2 == 1)))
+  let q := if up then q + 1 else q
+  -- q < 2^(mbits+2); a carry to 2^(mbits+1) moves to the next exponent by itself in the encoding below
+  let expField : Int := e0 - emin + (if q ≥ 2 ^ mbits then 1 else 0)
+  let bitsV : Int := if q ≥ 2 ^ mbits then (expField - 1) * 2 ^ mbits + q else q
+  if bitsV / 2 ^ mbits ≥ 2 ^ ebits - 1 then none else some bitsV.toNat
+
+def fpMul (mbits ebits : Nat) (a b : Nat) : Except String Nat :=
+  match fpDecode mbits ebits a, fpDecode mbits ebits b with
+  | some (m1, e1), some (m2, e2) =>
+    match fpRound mbits ebits (m1 * m2) (e1 + e2) false with
+    | some r => .ok r | none => .error "float overflow"
+  | _, _ => .error "float operand is negative, infinite or NaN"
+
+def fpAdd (mbits ebits : Nat) (a b : Nat) : Except String Nat :=
+  match fpDecode mbits ebits a, fpDecode mbits ebits b with
+  | some (m1, e1), some (m2, e2) =>
+    let e := min e1 e2
+    match fpRound mbits ebits (m1 * 2 ^ (e1 - e).toNat + m2 * 2 ^ (e2 - e).toNat) e false with
+    | some r => .ok r | none => .error "float overflow"
+  | _, _ => .error "float operand is negative, infinite or NaN"
+
+def fpDiv (mbits ebits : Nat) (a b : Nat) : Except String Nat :=
+  match fpDecode mbits ebits a, fpDecode mbits ebits b with
+  | some (m1, e1), some (m2, e2) =>
+    if m2 == 0 then .error "float division by zero" else
+    let k := 2 * mbits + 8
+    let n := m1 * 2 ^ k
+    match fpRound mbits ebits (n / m2) (e1 - e2 - k) (n % m2 != 0) with
+    | some r => .ok r | none => .error "float overflow"
+  | _, _ => .error "float operand is negative, infinite or NaN"
+
+/-- integer square root by Newton iteration (fuel = bit length) -/
+def natSqrt (n : Nat) : Nat :=
+  if n < 2 then n else
+  let rec go (fuel x : Nat) : Nat :=
+    match fuel with
+    | 0 => x
+    | f + 1 => let y := (x + n / x) / 2; if y < x then go f y else x
+  go (Nat.log2 n + 2) (2 ^ ((Nat.log2 n) / 2 + 1))
+
+def fpSqrt (mbits ebits : Nat) (a : Nat) : Except String Nat :=
+  match fpDecode mbits ebits a with
+  | some (m, e) =>
+    -- scale so that the exponent is even and the root has plenty of bits
+    let k := 2 * mbits + 8 + (if (e % 2 != 0) then 1 else 0)
+    let n := m * 2 ^ k
+    let s := natSqrt n
+    match fpRound mbits ebits s ((e - k) / 2) (s * s != n) with
+    | some r => .ok r | none => .error "float overflow"
+  | none => .error "float operand is negative, infinite or NaN"
+
+/-- `x as u64` for a non-negative finite float: truncation, saturating -/
+def fpToU64 (mbits ebits : Nat) (a : Nat) : Except String UInt64 :=
+  match fpDecode mbits ebits a with
+  | some (m, e) =>
+    let v := if e ≥ 0 then m * 2 ^ e.toNat else m / 2 ^ (-e).toNat
+    .ok (if v ≥ 2 ^ 64 then 0xffffffffffffffff else UInt64.ofNat v)
+  | none => .error "float operand is negative, infinite or NaN"
+
 /-- `BID_UI64DOUBLE`: a `union { ui64: u64, d: f64 }`, kept as its bits.  The library only ever stores an
 unsigned integer converted to `f64` in it and reads the bits back (to get the position of the leading bit). -/
 structure F64U where
@@ -98,6 +192,11 @@ structure F64U where
   deriving DecidableEq, Repr, Inhabited
 
 def F64U.ofU64 (x : UInt64) : F64U := ⟨UInt64.ofNat (floatBitsOfNat 52 1023 x.toNat)⟩
+def F64U.mul (a b : F64U) : Except String F64U := (fpMul 52 11 a.bits.toNat b.bits.toNat).map fun r => ⟨UInt64.ofNat r⟩
+def F64U.add (a b : F64U) : Except String F64U := (fpAdd 52 11 a.bits.toNat b.bits.toNat).map fun r => ⟨UInt64.ofNat r⟩
+def F64U.div (a b : F64U) : Except String F64U := (fpDiv 52 11 a.bits.toNat b.bits.toNat).map fun r => ⟨UInt64.ofNat r⟩
+def F64U.sqrt (a : F64U) : Except String F64U := (fpSqrt 52 11 a.bits.toNat).map fun r => ⟨UInt64.ofNat r⟩
+def F64U.toU64 (a : F64U) : Except String UInt64 := fpToU64 52 11 a.bits.toNat
 
 /-- `BID_UI32FLOAT`: `union { ui32: u32, d: f32 }`, kept as its bits -/
 structure F32U where
@@ -105,6 +204,10 @@ structure F32U where
   deriving DecidableEq, Repr, Inhabited
 
 def F32U.ofU64 (x : UInt64) : F32U := ⟨UInt32.ofNat (floatBitsOfNat 23 127 x.toNat)⟩
+def F32U.mul (a b : F32U) : Except String F32U := (fpMul 23 8 a.bits.toNat b.bits.toNat).map fun r => ⟨UInt32.ofNat r⟩
+def F32U.add (a b : F32U) : Except String F32U := (fpAdd 23 8 a.bits.toNat b.bits.toNat).map fun r => ⟨UInt32.ofNat r⟩
+def F32U.div (a b : F32U) : Except String F32U := (fpDiv 23 8 a.bits.toNat b.bits.toNat).map fun r => ⟨UInt32.ofNat r⟩
+def F32U.toU64 (a : F32U) : Except String UInt64 := fpToU64 23 8 a.bits.toNat
 
 /-- the mathematical value of a Rust scalar (what an `as` cast starts from) -/
 class ToI (α : Type) where
@@ -194,6 +297,16 @@ def countWhile256 (t : List Nat) (lo hi : Nat) (p : U256 → Bool) : Except Stri
   let _ ← tbl256 t (UInt64.ofNat hi)
   let n ← countWhileAux (fun i => tbl256 t (UInt64.ofNat i)) p (hi + 1 - lo) lo 0
   pure (UInt64.ofNat n)
+
+/-- flat position of `T[i₀][i₁]…` in a table of dimensions `dims` (row-major, as the tables are dumped); an index
+outside its dimension is Rust's index panic -/
+def flatIdx : List Nat → List Nat → Except String UInt64
+  | [], [] => .ok 0
+  | d :: ds, i :: is => do
+    if i ≥ d then throw "index out of bounds"
+    let rest ← flatIdx ds is
+    pure (UInt64.ofNat (i * ds.foldl (· * ·) 1 + rest.toNat))
+  | _, _ => .error "index arity"
 
 /-- the `k` little-endian bytes of `n` — what `Hasher::write_u32 / write_i32 / write_u64 / write_u128` feed to
 `Hasher::write` on a little-endian target (std's default methods) -/
